@@ -7,7 +7,10 @@ from rules import shared, C16 as _c16
 EXPLANATION = (
     "Def-use, table and bound rules over config <-> frame::Settings: (a) TryFrom<Config> inserts distinct constant "
     "identifiers, all in is_supported, none in is_forbidden, each value by pure flow from its own Config field, and the "
-    "inverse map From<&frame::Settings> reads the same identifier for the same field (sibling agreement); the grease "
+    "inverse map From<&frame::Settings> reads the same identifier for the same field (sibling agreement) and stores the "
+    "received value unchanged (only unwrap_or*/or* - plus one map for the flags - between get(ID) and the field: no "
+    "filter/and_then/arithmetic, so an advertised 0 stays 0); the declared SETTINGS length is the size of the entries "
+    "written (C14-b clauses on Settings::len/encode, shared); the grease "
     "identifier has the 0x1f*N+0x21 form, stays below 2^62 and no supported/forbidden identifier is itself of that form "
     "(so the random entry can never collide); (b) the number of inserts and |is_supported| fit SETTINGS_LEN and the "
     "worst-case encoded control-stream header, computed from the varint size classes of the inserted identifiers and the "
@@ -20,7 +23,7 @@ EXPLANATION = (
     "OnceLock; defaults otherwise (C10-c). The cfg(test) send_settings switch is test-only code.")
 # every anchor of these rules lives in the h3 crate: thorough tier repeats them on the feature-less build
 EXTRA_CONFIGS = ["h3-plain"]
-RULES = "C13-a what is sent, every SettingId constant is the registered number (A4/A11); C13-b capacity and buffer bound (A17/A6); C13-c setup never panics (A4/A5); C13-d receive, every supported identifier stored whatever its value, the length pre-check refuses only entries shorter than two bytes (A3/A2/A11/A5); C13-e applied once (A10); shared: varint form tables under C13-a, frame reader memo under C13-d; shared through a proxy: C02-g under C13-d; C10-c (protocol defaults) under C13-a"
+RULES = "C13-a what is sent, every SettingId constant is the registered number, received values applied unchanged, shared: C14-b on Settings::len/encode (A4/A11); C13-b capacity and buffer bound (A17/A6); C13-c setup never panics (A4/A5); C13-d receive, every supported identifier stored whatever its value, the length pre-check refuses only entries shorter than two bytes (A3/A2/A11/A5); C13-e applied once (A10); shared: varint form tables under C13-a, frame reader memo under C13-d; shared through a proxy: C02-g under C13-d; C10-c (protocol defaults) under C13-a"
 
 FRM = "h3::proto::frame::"
 HERE = os.path.dirname(os.path.dirname(os.path.abspath(__file__)))
@@ -217,6 +220,17 @@ def run(ctx):
                                                                    (o[0] == "phi" and len(o[1]) == 2))     # explicit `match get(ID) { Some(v) => .., None => default }`
                 ctx.check(ok, "C13-a", inv.key, "config.%s <- %s (default otherwise)" % (fld, name),
                           "received settings: field %s is read from identifiers %s; the writer sends it as %s" % (fld, sorted(ids), name), str(sorted(ids)))
+                # the received value is applied AS RECEIVED: between `get(ID)` and the field no Option combinator may drop or
+                # alter a present value (`filter`, `and_then`, `xor`, `take_if`, .. turn an advertised 0 into "not advertised");
+                # numeric settings also admit no `map` and no arithmetic, boolean ones exactly one `map` (value -> flag)
+                keep = ("unwrap_or", "unwrap_or_else", "unwrap_or_default", "or", "or_else") + (("map",) if isbool else ())
+                optc = [c for c in fl.calls_in(o) if c.startswith("core::option::Option::")]
+                bad = sorted(c for c in optc if c.rsplit("::", 1)[1] not in keep)
+                okv = not bad and (isbool or not fl.has_arith(o)) and optc.count("core::option::Option::map") <= (1 if isbool else 0)
+                ctx.check(okv, "C13-a", inv.key, "config.%s takes the received value unchanged (no filtering combinator)" % fld,
+                          "received settings: the value of %s passes through %s%s before it is stored in config.%s - a value the peer advertised "
+                          "(e.g. 0) is replaced by the default, so the peer's setting is not applied as received"
+                          % (name, bad or optc, " and arithmetic" if (not isbool and fl.has_arith(o)) else "", fld), str(bad))
     # ------------------------------------------------------------------ C13-b capacity
     slen = consts.get(FRM + "SETTINGS_LEN")
     ctx.check(slen is not None and len(sent) <= slen and len(sup) <= slen, "C13-b", FRM + "SETTINGS_LEN", "table holds every sent and every supported setting",
@@ -379,6 +393,9 @@ def run(ctx):
     if not getattr(ctx, "nested", False):
         from rules import C02 as _c02s
         _c02s.run(shared.Proxy(ctx, ("C02-g",), "C13-d"))
+        # the SETTINGS frame this endpoint sends declares the length of the entries it writes (Settings::len / Settings::encode, C14-b)
+        from rules import C14 as _c14s
+        _c14s.run(shared.Proxy(ctx, ("C14-b",), "C13-a", exclude=("Frame as h3::proto::coding::Encode", "simple_frame_encode")))
         # what holds before the peer's SETTINGS arrive (and for identifiers they omit) are the protocol defaults (C10-c)
         from rules import C10 as _c10s
         _c10s.run(shared.Proxy(ctx, ("C10-c",), "C13-a", only=("core::default::Default>::default",)))
